@@ -312,6 +312,39 @@ def run_case(case):
                     if not same_outcome(slot, o):
                         fail("a batch slot differs from the individual call",
                              "%s: slot %d: batch %s, individual %s" % (label, i, domain.describe(slot, 80), domain.describe(o, 80)))
+        # ---- a batch whose elements evaluate batches of their own (rolling windows over another function), with some of the
+        # inner calls memoized beforehand
+        wp = "W%d_%d" % (case["seed"], case["idx"])
+        for k in range(8):
+            ffuncs.TABLE["%s|%s" % (wp, k)] = ("__raise__", ValueError, ("elem %d failed" % k,)) if k == 5 and case["idx"] % 2 else 10 * (k + 1)
+        wpre = [k for k in range(8) if (k + case["idx"]) % 3 != 1]
+        wks = [0, 1, 2, 4, 1][: 3 + case["idx"] % 3]
+        wstates = []
+        for mode in ("individual", "batch"):
+            st = env.fs_backend(sc.path("W" + mode)) if case["idx"] % 2 else env.mem_backend()
+            env.set_env(sc.path("envW" + mode), default_storage=st)
+            for k in wpre:
+                outcome_of(lambda k=k: ffuncs.pair(wp, k))
+            mark = REC.mark()
+            if mode == "individual":
+                wres = [outcome_of(lambda k=k: ffuncs.window(wp, k)) for k in wks]
+            else:
+                got = outcome_of(lambda: ffuncs.window.call_batch([{"prefix": wp, "k": k} for k in wks], raise_first_exception=False))
+                wres = [("ret", r) for r in got[1]] if got[0] == "ret" else [got]
+            wruns = collections.Counter((e[0], e[1][-1] if e[0] == "window" else e[1][0]) for e in REC.since(mark) if e[0] in ("window", "pair"))
+            wstates.append((wres, wruns, store_state(st, ffuncs.window), store_state(st, ffuncs.pair)))
+        out["obs"]["batches_of_elements_that_evaluate_batches"] += 1
+        label = "batch of windows %s over pair(%s, 0..7), inner calls memoized beforehand: %s" % (wks, wp, wpre)
+        (ri, ni, swi, spi), (rb, nb, swb, spb) = wstates
+        if len(ri) != len(rb) or not all(same_outcome(a, b) for a, b in zip(ri, rb)):
+            fail("a batch slot differs from the individual call", "%s: batch %s, individual calls %s" % (
+                label, domain.describe(rb, 200), domain.describe(ri, 200)))
+        if ni != nb:
+            fail("a distinct batch element's body ran the wrong number of times", "%s: bodies run by the batch %s, by individual calls %s" % (
+                label, sorted(nb.items()), sorted(ni.items())))
+        if set(swi) != set(swb) or set(spi) != set(spb):
+            fail("the store after a batch differs from the store after individual calls", "%s: entries of window %d / %d, of pair %d / %d" % (
+                label, len(swb), len(swi), len(spb), len(spi)))
         # ---- a long batch (several hundred elements) with failing elements near its beginning and in its middle, the first
         # failure raised: every element is evaluated and memoized all the same, as the individual calls do
         if case["idx"] % 4 == 0:
